@@ -21,7 +21,7 @@ Definition d13_borc : @borc Qc Z := (d13_orc, d13_orc, d13_orc).
 Definition d13_trained : @nbr Qc Z nat := fst (nbr_fit QcNum ToyRng d13_nbr 0%nat [10%Z] [Q2Qc 1] d13_train_cx).
 
 Theorem online_public_protocol_refuted :
-  rep_preds (snd (sim_online1 QcNum Z.eqb ToyRng (SNbr d13_trained 0%nat []) (Some ([], [])) 0 [d13_batch; d13_batch2] [d13_borc; d13_borc]))
+  rep_preds (snd (sim_online1 QcNum Z.eqb ToyRng (SNbr d13_trained 0%nat (mkNbk [] [Q2Qc 1] true)) (Some ([], [])) 0 [d13_batch; d13_batch2] [d13_borc; d13_borc]))
   = Some [Some 10%Z; Some 20%Z] /\
   option_map fst (snd (api_online QcNum Z.eqb ToyRng (lib_of d13_trained 0%nat) [d13_batch; d13_batch2] [d13_borc; d13_borc]))
   = Some [Some 10%Z; Some 30%Z] /\
